@@ -439,6 +439,12 @@ draining, parent token cancelled -/
 example : (run demo init (hooksOk ++ [.recvInline, .inlineReturn (some 1), .recvInline, .inlineReturn (some 2), .parentCancel])).map
     (fun s => (s.phase, s.token, s.queue.length)) = some (.sendBlocked 2, true, 2) := by decide
 
+/-- The connection task and the reader loop contain no timer, sleep, timeout or retry arm, and the
+`select!` over the reader has exactly its two arms (re-extracted): the model's reader has no move that
+a clock could trigger, so a peer that stalls mid-handshake or mid-frame for any length of time is just a
+longer stay in `handshake` / `reading` — no hook event (`no_disconnect_while_live`). -/
+theorem no_timers_in_connection_task : Gen.Lifecycle.noTimersInConnectionLoops = true := by decide
+
 /-! ### one identity per connection, hooks in registration order -/
 
 /-- **Distinct identities.**  Connections accepted concurrently get pairwise distinct `PeerId`s: the id is
